@@ -158,7 +158,7 @@ pub fn check_def() -> PropertyCheck {
   PropertyCheck {
     id: "C16",
     scenarios: vec![Box::new(C16)],
-    runs: (120_000, 8_000_000),
+    runs: (200_000, 8_000_000),
     rule: "case = early terminator (take, first, element_at, take_while, contains, all, take_until) over a random operator tree (depth <=3/4, catalogue minus share) whose leaves are unbounded interval / counting from_iter / counting from_stream producers and hot inputs - so the producer sits in main and in notifier/secondary positions of the two-input operators - driven by a script and then run to idle on a FIFO prompt executor; non-trivial = the subscriber saw its terminal",
     assumptions: vec!["share() is excluded here: it never disconnects its source (C11 known finding)"],
   }
